@@ -1,7 +1,1327 @@
-//! C10 — not implemented yet.
+//! C10 — BCF typed encoding round-trips every value and carries the same content as VCF.
+//!
+//! Sub-check `roundtrip` (document = header + 0..10 records, gen::var Mode::bcf_full):
+//!   1. `bcf::io::Writer` (BGZF) → `Reader::read_record_buf` = input under the normal form of
+//!      `VarRecord::normalised(Target::Bcf)` (floats by bit pattern; `[.]` ≡ `.`; dropped trailing
+//!      sample fields ≡ missing);
+//!   2. an independent BCF2 reader (`oracle::bcf_raw`, written from the specification) walks the
+//!      inflated stream (`oracle::bgzf_walk`): dictionary indices per IDX / order of appearance,
+//!      POS−1, rlen = harness span, QUAL bits, counts, and every typed value: no stored integer or
+//!      float that stands for a value may equal a missing / end-of-vector / reserved code of its
+//!      width, missing entries carry the missing code, shorter vectors are padded with
+//!      end-of-vector codes only after their values;
+//!   3. lazy `bcf::Record`: accessor sweep through the `variant::Record` trait (+ `Info::get`,
+//!      `Samples::select`, `Series`, `reference_sequence_id`, `end`) = eager read;
+//!   4. the VCF line of what BCF returns (eager and lazy) = the VCF line of the input;
+//!   5. IDX: the repository's header writer cannot emit IDX, so for headers whose IDX differ from
+//!      the order of appearance the harness injects the `IDX=` fields into the header text of the
+//!      written stream itself (the records were encoded with the IDX-based dictionary) and reads
+//!      that; the file exactly as written is checked on a small fraction of cases (known finding).
+//! Sub-check `reject`: one unrepresentable element (integer in [i32::MIN, i32::MIN+7], float
+//! bit pattern 0x7F800001..7, undeclared contig / FILTER / INFO key / FORMAT key, POS 2^31) is put
+//! into an otherwise valid document: the writer must return `Err`; a panic, an accepted record that
+//! cannot be read, or a different value read back is a violation.
 
 use crate::engine::*;
+use crate::oracle::{bcf_raw, bgzf_walk};
+use crate::r#gen::var::{self, *};
+use noodles_bcf as bcf;
+use noodles_vcf as vcf;
+use proptest::prelude::*;
+use serde::{Deserialize, Serialize};
+use vcf::variant::io::Write as _;
+
+// ------------------------------------------------------------------------------------------------
+// classes of records that the pinned tree is known to mishandle (predicates on the input)
+// ------------------------------------------------------------------------------------------------
+
+fn gts(r: &VarRecord) -> impl Iterator<Item = &Vec<Allele>> {
+    r.samples.iter().flatten().filter_map(|v| if let Some(SampleValue::Genotype(g)) = v { Some(g) } else { None })
+}
+
+fn all_strings(r: &VarRecord) -> Vec<(bool, bool, &str)> {
+    // (in_array, is_format, s)
+    let mut out = Vec::new();
+    for (_, v) in &r.info {
+        match v {
+            Some(InfoValue::String(s)) => out.push((false, false, s.as_str())),
+            Some(InfoValue::StrArray(a)) => out.extend(a.iter().flatten().map(|s| (true, false, s.as_str()))),
+            _ => {}
+        }
+    }
+    for v in r.samples.iter().flatten() {
+        match v {
+            Some(SampleValue::String(s)) => out.push((false, true, s.as_str())),
+            Some(SampleValue::StrArray(a)) => out.extend(a.iter().flatten().map(|s| (true, true, s.as_str()))),
+            _ => {}
+        }
+    }
+    out
+}
+
+fn all_chars(r: &VarRecord) -> Vec<(bool, bool, char)> {
+    let mut out = Vec::new();
+    for (_, v) in &r.info {
+        match v {
+            Some(InfoValue::Character(c)) => out.push((false, false, *c)),
+            Some(InfoValue::CharArray(a)) => out.extend(a.iter().flatten().map(|c| (true, false, *c))),
+            _ => {}
+        }
+    }
+    for v in r.samples.iter().flatten() {
+        match v {
+            Some(SampleValue::Character(c)) => out.push((false, true, *c)),
+            Some(SampleValue::CharArray(a)) => out.extend(a.iter().flatten().map(|c| (true, true, *c))),
+            _ => {}
+        }
+    }
+    out
+}
+
+/// Known-defect classes a (normalised) record falls in, most specific first.
+fn record_classes(r: &VarRecord) -> Vec<&'static str> {
+    let mut c = Vec::new();
+    if r.info.iter().any(|(_, v)| v.is_none()) {
+        c.push("info-missing-value");
+    }
+    let gt_col = r.format.first().map(|k| k == "GT").unwrap_or(false);
+    if gt_col && r.samples.iter().any(|row| row.first().map(|v| v.is_none()).unwrap_or(true)) {
+        c.push("gt-missing");
+    }
+    let max_ploidy = gts(r).map(|g| g.len()).max().unwrap_or(0);
+    if gts(r).any(|g| g.len() >= 2 && g.len() < max_ploidy) {
+        c.push("gt-ragged");
+    }
+    if gts(r).any(|g| g.iter().any(|a| a.0.is_none() && a.1)) {
+        c.push("gt-phased-missing");
+    }
+    for (ki, key) in r.format.iter().enumerate() {
+        if key != "GT" && r.samples.iter().all(|row| row.get(ki).map(|v| v.is_none()).unwrap_or(true)) {
+            c.push("format-column-all-missing");
+            break;
+        }
+    }
+    if all_strings(r).iter().any(|(arr, _, s)| *arr && s.contains(',')) {
+        c.push("string-array-element-with-comma");
+    }
+    if all_strings(r).iter().any(|(arr, fmt, s)| *s == "." && (*arr || *fmt)) || all_chars(r).iter().any(|(arr, fmt, ch)| (*ch == '.' && (*arr || *fmt)) || (*ch == ',' && *arr)) {
+        c.push("dot-or-comma-value");
+    }
+    if all_strings(r).iter().any(|(arr, _, s)| *arr && has_percent_escape(s)) {
+        c.push("string-array-percent-escape");
+    }
+    if all_chars(r).iter().any(|(_, _, ch)| !ch.is_ascii()) {
+        c.push("character-non-ascii");
+    }
+    if r.info.iter().any(|(_, v)| matches!(v, Some(InfoValue::IntArray(a)) if a.len() == 1 && a[0].map(|x| !(-120..=127).contains(&x)).unwrap_or(false))) {
+        c.push("info-int-array-len1-wide");
+    }
+    c
+}
+
+/// Classes for which a writer `Err` is an acceptable outcome (the statement speaks of records the
+/// writer accepts).
+const REJECT_OK: [&str; 2] = ["gt-missing", "format-column-all-missing"];
+
+// ------------------------------------------------------------------------------------------------
+// raw oracle
+// ------------------------------------------------------------------------------------------------
+
+fn plain(s: &str) -> bool {
+    !s.is_empty() && s != "." && s.chars().all(|c| c.is_ascii_alphanumeric() || "_-+/|.()[]<>*#@!?^~{}$&'\" \\".contains(c))
+}
+
+fn int_scan(cells: &[bcf_raw::IntCell], want: &[Option<i32>], padded_to: usize, what: &str, out: &mut Vec<String>) {
+    use bcf_raw::IntCell as C;
+    if cells.len() != padded_to {
+        out.push(format!("{what}: {} stored cells, expected {}", cells.len(), padded_to));
+        return;
+    }
+    for (i, c) in cells.iter().enumerate() {
+        let ok = match (want.get(i), c) {
+            (Some(Some(n)), C::Value(m)) => n == m,
+            (Some(None), C::Missing) => true,
+            (None, C::EndOfVector) => true,
+            _ => false,
+        };
+        if !ok {
+            out.push(format!("{what}: cell {i} is {c:?}, the value there is {:?} (None = padding) — stored {:?}", want.get(i), cells));
+            return;
+        }
+    }
+}
+
+fn float_scan(bits: &[u32], want: &[Option<u32>], padded_to: usize, what: &str, out: &mut Vec<String>) {
+    if bits.len() != padded_to {
+        out.push(format!("{what}: {} stored floats, expected {}", bits.len(), padded_to));
+        return;
+    }
+    for (i, b) in bits.iter().enumerate() {
+        let ok = match want.get(i) {
+            Some(Some(w)) => b == w,
+            Some(None) => *b == bcf_raw::FLOAT_MISSING,
+            None => *b == bcf_raw::FLOAT_EOV,
+        };
+        if !ok {
+            out.push(format!("{what}: float {i} is {b:#010x}, the value there is {:?} (None = padding)", want.get(i).map(|o| o.map(|w| format!("{w:#010x}")))));
+            return;
+        }
+    }
+}
+
+fn str_scan(bytes: &[u8], want: Option<&str>, what: &str, out: &mut Vec<String>) {
+    let end = bytes.iter().rposition(|&b| b != 0).map(|p| p + 1).unwrap_or(0);
+    let got = &bytes[..end];
+    match want {
+        Some(w) if plain(w) || w.split(',').all(|e| e == "." || plain(e)) => {
+            if got != w.as_bytes() {
+                out.push(format!("{what}: stored characters {:?}, expected {:?}", String::from_utf8_lossy(got), w));
+            }
+        }
+        _ => {}
+    }
+}
+
+fn join<T>(a: &[Option<T>], f: impl Fn(&T) -> String) -> String {
+    a.iter().map(|e| e.as_ref().map(&f).unwrap_or_else(|| ".".to_string())).collect::<Vec<_>>().join(",")
+}
+
+/// Compare one raw record with the (normalised) input. `hm` carries the IDX that the *file's*
+/// header text carries.
+fn raw_check(want: &VarRecord, hm: &VarHeader, raw: &bcf_raw::RawRecord) -> Vec<(&'static str, String)> {
+    let mut out: Vec<(&'static str, String)> = Vec::new();
+    let (strings, contigs) = expected_string_indices(hm);
+    let sidx = |id: &str| strings.iter().find(|(s, _)| s == id).map(|(_, i)| *i as usize);
+    let mut site = Vec::new();
+    match contigs.iter().find(|(s, _)| s == &want.chrom) {
+        Some((_, i)) if raw.chrom == *i as i32 => {}
+        other => site.push(format!("CHROM stored as {}, contig {:?} has dictionary index {:?}", raw.chrom, want.chrom, other.map(|x| x.1))),
+    }
+    if raw.pos as i64 != want.pos as i64 - 1 {
+        site.push(format!("POS stored as {}, expected {}", raw.pos, want.pos as i64 - 1));
+    }
+    if let Some(end) = harness_end(want, hm) {
+        let span = end as i64 - want.pos.max(1) as i64 + 1;
+        if raw.rlen as i64 != span {
+            site.push(format!("rlen stored as {}, the record spans {} (POS {} end {})", raw.rlen, span, want.pos, end));
+        }
+    }
+    if raw.qual != want.qual.unwrap_or(bcf_raw::FLOAT_MISSING) {
+        site.push(format!("QUAL stored as {:#010x}, expected {:?}", raw.qual, want.qual.map(|b| format!("{b:#010x}"))));
+    }
+    if raw.n_info as usize != want.info.len() || raw.n_allele as usize != want.alts.len() + 1 || raw.n_sample as usize != hm.samples.len() || raw.n_fmt as usize != want.format.len() {
+        site.push(format!("counts n_info={} n_allele={} n_sample={} n_fmt={} for a record with {} INFO fields, {} ALT, {} samples, {} FORMAT keys", raw.n_info, raw.n_allele, raw.n_sample, raw.n_fmt, want.info.len(), want.alts.len(), hm.samples.len(), want.format.len()));
+    }
+    match (&raw.id, want.ids.is_empty()) {
+        (bcf_raw::Typed::Str(b), true) if b.is_empty() => {}
+        (bcf_raw::Typed::Missing, true) => {}
+        (bcf_raw::Typed::Str(b), false) if b == want.ids.join(";").as_bytes() => {}
+        (other, _) => site.push(format!("ID stored as {other:?}, expected {:?}", want.ids)),
+    }
+    let alleles: Vec<&str> = std::iter::once(want.reference.as_str()).chain(want.alts.iter().map(|s| s.as_str())).collect();
+    for (i, (a, w)) in raw.alleles.iter().zip(&alleles).enumerate() {
+        if !matches!(a, bcf_raw::Typed::Str(b) if b == w.as_bytes()) {
+            site.push(format!("allele {i} stored as {a:?}, expected {w:?}"));
+        }
+    }
+    let want_filters: Option<Vec<usize>> = want.filters.iter().map(|f| sidx(f)).collect();
+    match (&raw.filter, want_filters) {
+        (f, Some(w)) if w.is_empty() => {
+            if !f.is_empty() {
+                site.push(format!("FILTER stored as {f:?} for a missing FILTER"));
+            }
+        }
+        (f, Some(w)) => match f.int_cells() {
+            Some(cells) if cells == w.iter().map(|i| bcf_raw::IntCell::Value(*i as i32)).collect::<Vec<_>>() => {}
+            _ => site.push(format!("FILTER stored as {f:?}, expected dictionary indices {w:?} for {:?}", want.filters)),
+        },
+        (_, None) => {}
+    }
+    for s in site {
+        out.push(("site", s));
+    }
+    // INFO
+    let mut info = Vec::new();
+    for (i, ((k, v), (rk, rv))) in want.info.iter().zip(&raw.info).enumerate() {
+        if rk.as_index() != sidx(k) || sidx(k).is_none() {
+            info.push(format!("INFO field {i}: key stored as {rk:?}, {k:?} has dictionary index {:?}", sidx(k)));
+            continue;
+        }
+        let what = format!("INFO {k}");
+        match v {
+            None => {}
+            Some(InfoValue::Flag) => {
+                if !(matches!(rv, bcf_raw::Typed::Missing) || matches!(rv, bcf_raw::Typed::Int8(x) if x == &[1])) {
+                    info.push(format!("{what}: Flag stored as {rv:?}"));
+                }
+            }
+            Some(InfoValue::Integer(n)) => match rv.int_cells() {
+                Some(c) => int_scan(&c, &[Some(*n)], 1, &what, &mut info),
+                None => info.push(format!("{what}: Integer stored as {}", rv.type_name())),
+            },
+            Some(InfoValue::IntArray(a)) => match rv.int_cells() {
+                Some(c) => int_scan(&c, a, a.len(), &what, &mut info),
+                None => info.push(format!("{what}: Integer array stored as {}", rv.type_name())),
+            },
+            Some(InfoValue::Float(b)) => match rv {
+                bcf_raw::Typed::Float(x) => float_scan(x, &[Some(*b)], 1, &what, &mut info),
+                _ => info.push(format!("{what}: Float stored as {}", rv.type_name())),
+            },
+            Some(InfoValue::FloatArray(a)) => match rv {
+                bcf_raw::Typed::Float(x) => float_scan(x, a, a.len(), &what, &mut info),
+                _ => info.push(format!("{what}: Float array stored as {}", rv.type_name())),
+            },
+            Some(InfoValue::Character(c)) => match rv {
+                bcf_raw::Typed::Str(b) => str_scan(b, Some(&c.to_string()), &what, &mut info),
+                _ => info.push(format!("{what}: Character stored as {}", rv.type_name())),
+            },
+            Some(InfoValue::String(s)) => match rv {
+                bcf_raw::Typed::Str(b) => str_scan(b, Some(s), &what, &mut info),
+                _ => info.push(format!("{what}: String stored as {}", rv.type_name())),
+            },
+            Some(InfoValue::CharArray(a)) => match rv {
+                bcf_raw::Typed::Str(b) => {
+                    if a.iter().flatten().all(|c| c.is_ascii_alphanumeric()) {
+                        str_scan(b, Some(&join(a, |c| c.to_string())), &what, &mut info)
+                    }
+                }
+                _ => info.push(format!("{what}: Character array stored as {}", rv.type_name())),
+            },
+            Some(InfoValue::StrArray(a)) => match rv {
+                bcf_raw::Typed::Str(b) => {
+                    if a.iter().flatten().all(|s| plain(s)) {
+                        str_scan(b, Some(&join(a, |s| s.clone())), &what, &mut info)
+                    }
+                }
+                _ => info.push(format!("{what}: String array stored as {}", rv.type_name())),
+            },
+        }
+    }
+    for s in info {
+        out.push(("info", s));
+    }
+    // FORMAT
+    let mut fmt = Vec::new();
+    for (ki, (key, rf)) in want.format.iter().zip(&raw.format).enumerate() {
+        if rf.key.as_index() != sidx(key) || sidx(key).is_none() {
+            fmt.push(format!("FORMAT field {ki}: key stored as {:?}, {key:?} has dictionary index {:?}", rf.key, sidx(key)));
+            continue;
+        }
+        for (si, cell) in rf.samples.iter().enumerate() {
+            let v = want.samples.get(si).and_then(|row| row.get(ki)).cloned().flatten();
+            let what = format!("FORMAT {key} sample {si}");
+            match v {
+                Some(SampleValue::Genotype(g)) => match cell.int_cells() {
+                    Some(c) => {
+                        use bcf_raw::IntCell as C;
+                        if c.len() != rf.len || c.len() < g.len() {
+                            fmt.push(format!("{what}: {} cells for ploidy {}", c.len(), g.len()));
+                            continue;
+                        }
+                        for (i, cc) in c.iter().enumerate() {
+                            let ok = match (g.get(i), cc) {
+                                (Some((a, ph)), C::Value(n)) => {
+                                    let allele_ok = (*n >> 1) == a.map(|x| x as i32 + 1).unwrap_or(0);
+                                    // the first allele's phase bit is not asserted here (its meaning
+                                    // depends on the VCF version); the others are
+                                    allele_ok && (i == 0 || ((*n & 1) == 1) == *ph)
+                                }
+                                (None, C::EndOfVector) => true,
+                                _ => false,
+                            };
+                            if !ok {
+                                fmt.push(format!("{what}: GT cell {i} is {cc:?} for genotype {g:?} — stored {c:?}"));
+                                break;
+                            }
+                        }
+                    }
+                    None => fmt.push(format!("{what}: GT stored as {}", cell.type_name())),
+                },
+                Some(SampleValue::Integer(n)) => match cell.int_cells() {
+                    Some(c) => int_scan(&c, &[Some(n)], rf.len, &what, &mut fmt),
+                    None => fmt.push(format!("{what}: Integer stored as {}", cell.type_name())),
+                },
+                Some(SampleValue::IntArray(a)) => match cell.int_cells() {
+                    Some(c) => int_scan(&c, &a, rf.len, &what, &mut fmt),
+                    None => fmt.push(format!("{what}: Integer array stored as {}", cell.type_name())),
+                },
+                Some(SampleValue::Float(b)) => match cell {
+                    bcf_raw::Typed::Float(x) => float_scan(x, &[Some(b)], rf.len, &what, &mut fmt),
+                    _ => fmt.push(format!("{what}: Float stored as {}", cell.type_name())),
+                },
+                Some(SampleValue::FloatArray(a)) => match cell {
+                    bcf_raw::Typed::Float(x) => float_scan(x, &a, rf.len, &what, &mut fmt),
+                    _ => fmt.push(format!("{what}: Float array stored as {}", cell.type_name())),
+                },
+                Some(SampleValue::Character(c)) => match cell {
+                    bcf_raw::Typed::Str(b) => str_scan(b, Some(&c.to_string()), &what, &mut fmt),
+                    _ => fmt.push(format!("{what}: Character stored as {}", cell.type_name())),
+                },
+                Some(SampleValue::String(s)) => match cell {
+                    bcf_raw::Typed::Str(b) => str_scan(b, Some(&s), &what, &mut fmt),
+                    _ => fmt.push(format!("{what}: String stored as {}", cell.type_name())),
+                },
+                Some(SampleValue::CharArray(a)) => {
+                    if !matches!(cell, bcf_raw::Typed::Str(_)) {
+                        fmt.push(format!("{what}: Character array stored as {}", cell.type_name()));
+                    }
+                    let _ = a;
+                }
+                Some(SampleValue::StrArray(a)) => match cell {
+                    bcf_raw::Typed::Str(b) => {
+                        if a.iter().flatten().all(|s| plain(s)) {
+                            str_scan(b, Some(&join(&a, |s| s.clone())), &what, &mut fmt)
+                        }
+                    }
+                    _ => fmt.push(format!("{what}: String array stored as {}", cell.type_name())),
+                },
+                None => {
+                    // a missing sample value: first cell missing, rest padding (numeric types)
+                    match cell {
+                        bcf_raw::Typed::Float(x) => float_scan(x, &[None], rf.len, &what, &mut fmt),
+                        bcf_raw::Typed::Str(_) => {}
+                        c => match c.int_cells() {
+                            Some(cells) if key != "GT" => int_scan(&cells, &[None], rf.len, &what, &mut fmt),
+                            _ => {}
+                        },
+                    }
+                }
+            }
+        }
+    }
+    for s in fmt {
+        out.push(("format", s));
+    }
+    out
+}
+
+// ------------------------------------------------------------------------------------------------
+// writing / reading helpers
+// ------------------------------------------------------------------------------------------------
+
+enum WriteOutcome {
+    Ok,
+    Err(String),
+    Panic(panics::PanicInfo),
+}
+
+struct Written {
+    /// BGZF file as produced by `bcf::io::Writer::new`
+    file: Vec<u8>,
+    /// per input record
+    outcomes: Vec<WriteOutcome>,
+}
+
+fn write_bcf(header: &vcf::Header, records: &[vcf::variant::RecordBuf]) -> Result<Written, Vec<Fail>> {
+    let mut w = bcf::io::Writer::new(Vec::new());
+    w.write_header(header).map_err(|e| vec![Fail::new("c10.header.write-error", format!("bcf write_header: {e}"))])?;
+    let mut outcomes = Vec::new();
+    for rb in records {
+        let res = panics::catch(|| w.write_variant_record(header, rb));
+        outcomes.push(match res {
+            Ok(Ok(())) => WriteOutcome::Ok,
+            Ok(Err(e)) => WriteOutcome::Err(e.to_string()),
+            Err(p) => WriteOutcome::Panic(p),
+        });
+    }
+    w.try_finish().map_err(|e| vec![Fail::new("c10.write.finish-error", format!("try_finish: {e}"))])?;
+    let file = w.into_inner().finish().map_err(|e| vec![Fail::new("c10.write.finish-error", format!("finish: {e}"))])?;
+    Ok(Written { file, outcomes })
+}
+
+fn inflate(file: &[u8]) -> Result<Vec<u8>, Vec<Fail>> {
+    let members = bgzf_walk::walk(file).map_err(|e| vec![Fail::new("c10.bgzf-malformed", e)])?;
+    Ok(bgzf_walk::concat(&members))
+}
+
+/// Insert `,IDX=n` before the closing `>` of every INFO/FILTER/FORMAT/contig line whose model
+/// entry carries an IDX.
+fn inject_idx(text: &[u8], hm: &VarHeader) -> Result<Vec<u8>, String> {
+    let s = std::str::from_utf8(text).map_err(|e| format!("header text not UTF-8: {e}"))?;
+    let mut out = String::with_capacity(s.len() + 64);
+    for line in s.split_inclusive('\n') {
+        let body = line.strip_suffix('\n').unwrap_or(line);
+        let mut idx: Option<u32> = None;
+        for (prefix, kind) in [("##INFO=<ID=", 0), ("##FILTER=<ID=", 1), ("##FORMAT=<ID=", 2), ("##contig=<ID=", 3)] {
+            if let Some(rest) = body.strip_prefix(prefix) {
+                let id = rest.split([',', '>']).next().unwrap_or("");
+                idx = match kind {
+                    0 => hm.infos.iter().find(|d| d.id == id).and_then(|d| d.idx),
+                    1 => hm.filters.iter().find(|d| d.id == id).and_then(|d| d.idx),
+                    2 => hm.formats.iter().find(|d| d.id == id).and_then(|d| d.idx),
+                    _ => hm.contigs.iter().find(|d| d.id == id).and_then(|d| d.idx),
+                };
+            }
+        }
+        match idx {
+            Some(i) if body.ends_with('>') => {
+                out.push_str(&body[..body.len() - 1]);
+                out.push_str(&format!(",IDX={i}>"));
+                if line.ends_with('\n') {
+                    out.push('\n');
+                }
+            }
+            Some(_) => return Err(format!("header line does not end with '>': {body:?}")),
+            None => out.push_str(line),
+        }
+    }
+    Ok(out.into_bytes())
+}
+
+fn strip_idx(h: &VarHeader) -> VarHeader {
+    let mut h = h.clone();
+    for d in h.infos.iter_mut().chain(h.formats.iter_mut()) {
+        d.idx = None;
+    }
+    for d in h.filters.iter_mut() {
+        d.idx = None;
+    }
+    for c in h.contigs.iter_mut() {
+        c.idx = None;
+    }
+    h
+}
+
+fn vcf_line(header: &vcf::Header, r: &dyn vcf::variant::Record) -> Result<Vec<u8>, String> {
+    let mut w = vcf::io::Writer::new(Vec::new());
+    match panics::catch(|| w.write_variant_record(header, r)) {
+        Ok(Ok(())) => Ok(w.into_inner()),
+        Ok(Err(e)) => Err(std::error::Error::source(&e).map(|s| format!("{e}: {s}")).unwrap_or_else(|| e.to_string())),
+        Err(p) => Err(p.describe()),
+    }
+}
+
+fn io_chain(e: &std::io::Error) -> String {
+    let mut s = e.to_string();
+    let mut cur: Option<&(dyn std::error::Error + 'static)> = e.get_ref().map(|x| x as &(dyn std::error::Error + 'static));
+    let mut depth = 0;
+    while let Some(c) = cur {
+        s.push_str(&format!(": {c}"));
+        cur = c.source();
+        depth += 1;
+        if depth > 6 {
+            break;
+        }
+    }
+    s
+}
+
+#[derive(Clone, Debug, Serialize, Deserialize)]
+pub struct Case {
+    pub doc: VarDoc,
+    /// also read the file exactly as the writer produced it when the header's IDX are not the
+    /// order of appearance (known finding: the header writer drops IDX)
+    pub as_written: bool,
+}
+
+fn strategy(tier: Tier) -> BoxedStrategy<Case> {
+    let full = Mode { hazard_permille: 8, ..Mode::bcf_full() };
+    let samples = Mode { samples: SamplesMode::Always, ..full.clone() };
+    (prop_oneof![1 => var::document(tier, &full), 1 => var::document(tier, &samples)], 0u8..100).prop_map(|(doc, d)| Case { doc, as_written: d < 4 }).boxed()
+}
+
+/// Known-defect classes that only affect the lazy `bcf::Record` path.
+const LAZY_ONLY: [&str; 3] = ["string-array-percent-escape", "info-int-array-len1-wide", "character-non-ascii"];
+
+/// The signature of a discrepancy on a record: the record's known-defect class when it is in one
+/// (one signature per class — what exactly goes wrong is in the message), generic otherwise.
+/// Classes that only concern the lazy reader do not cover discrepancies of the eager path.
+fn sig_for(classes: &[&'static str], kind: &str, generic: &str) -> String {
+    let lazy_kind = kind.starts_with("lazy");
+    match classes.iter().find(|c| lazy_kind || !LAZY_ONLY.contains(c)) {
+        Some(c) => format!("c10.{c}"),
+        None => generic.to_string(),
+    }
+}
+
+fn lazy_extra(header2: &vcf::Header, lazy: &bcf::Record, eager: &VarRecord, hm_eff: &VarHeader, classes: &[&'static str], i: usize, fails: &mut Fails) {
+    use vcf::variant::record::Info as _;
+    let (_, contigs) = expected_string_indices(hm_eff);
+    match lazy.reference_sequence_id() {
+        Ok(id) => {
+            if contigs.iter().find(|(s, _)| s == &eager.chrom).map(|(_, x)| *x as usize) != Some(id) {
+                fails.push("c10.lazy.reference-sequence-id", format!("record {i}: reference_sequence_id() = {id}, contig {:?}", eager.chrom));
+            }
+        }
+        Err(e) => fails.push("c10.lazy.reference-sequence-id", format!("record {i}: {e}")),
+    }
+    // Record::end()
+    if eager.pos == 0 {
+        match panics::catch(|| lazy.end()) {
+            Ok(_) => {}
+            Err(p) => fails.push("c10.pos-telomere.lazy-end-panic", format!("record {i}: bcf::Record::end() on a record with POS 0: {}", p.describe())),
+        }
+    } else {
+        match panics::catch(|| lazy.end()) {
+            Ok(Ok(end)) => {
+                if let Some(h) = harness_end(eager, hm_eff) {
+                    if usize::from(end) as u64 != h {
+                        fails.push(sig_for(classes, "lazy-end", "c10.lazy.end"), format!("record {i}: bcf::Record::end() = {end}, expected {h}"));
+                    }
+                }
+            }
+            Ok(Err(e)) => fails.push(sig_for(classes, "lazy-end", "c10.lazy.end"), format!("record {i}: bcf::Record::end(): {e}")),
+            Err(p) => fails.push(sig_for(classes, "lazy-end-panic", &p.sig()), format!("record {i}: bcf::Record::end(): {}", p.describe())),
+        }
+    }
+    // Info::get per key
+    let info = lazy.info();
+    for (k, v) in &eager.info {
+        let got = panics::catch(|| match info.get(header2, k) {
+            None => Err("None".to_string()),
+            Some(Err(e)) => Err(e.to_string()),
+            Some(Ok(None)) => Ok(None),
+            Some(Ok(Some(x))) => InfoValue::from_lazy(&x).map(Some),
+        });
+        match got {
+            Ok(Ok(g)) => {
+                let g = VarRecord { info: vec![(k.clone(), g)], ..empty_record() }.normalised(Target::Bcf, hm_eff).info.remove(0).1;
+                if &g != v {
+                    fails.push(sig_for(classes, "lazy-info-get", "c10.lazy.info-get"), format!("record {i}: Info::get({k:?}) = {g:?}, eager = {v:?}"));
+                }
+            }
+            Ok(Err(e)) => fails.push(sig_for(classes, "lazy-info-get", "c10.lazy.info-get"), format!("record {i}: Info::get({k:?}): {e}")),
+            Err(p) => fails.push(sig_for(classes, "lazy-panic", &p.sig()), format!("record {i}: Info::get({k:?}): {}", p.describe())),
+        }
+    }
+    if info.len() != eager.info.len() {
+        fails.push("c10.lazy.info-len", format!("record {i}: Info::len() = {}, {} fields", info.len(), eager.info.len()));
+    }
+    // Samples::select → Series
+    let samples = match lazy.samples() {
+        Ok(s) => s,
+        Err(e) => {
+            fails.push("c10.lazy.samples", format!("record {i}: samples(): {e}"));
+            return;
+        }
+    };
+    if samples.format_count() != eager.format.len() {
+        fails.push("c10.lazy.format-count", format!("record {i}: format_count() = {}, {} keys", samples.format_count(), eager.format.len()));
+    }
+    for (ki, key) in eager.format.iter().enumerate() {
+        let want: Vec<Option<SampleValue>> = eager.samples.iter().map(|row| row.get(ki).cloned().flatten()).collect();
+        let got = panics::catch(|| -> Result<Vec<Option<SampleValue>>, String> {
+            use vcf::variant::record::samples::Series as _;
+            let series = match samples.select(header2, key) {
+                None => return Err("select = None".into()),
+                Some(Err(e)) => return Err(format!("select: {e}")),
+                Some(Ok(s)) => s,
+            };
+            series
+                .iter(header2)
+                .map(|r| match r {
+                    Err(e) => Err(e.to_string()),
+                    Ok(None) => Ok(None),
+                    Ok(Some(v)) => SampleValue::from_lazy(&v).map(Some),
+                })
+                .collect()
+        });
+        match got {
+            Ok(Ok(g)) => {
+                let g = VarRecord { format: vec![key.clone()], samples: g.into_iter().map(|v| vec![v]).collect(), ..empty_record() }.normalised(Target::Bcf, hm_eff);
+                let g: Vec<Option<SampleValue>> = g.samples.into_iter().map(|mut r| r.remove(0)).collect();
+                if g != want {
+                    fails.push(sig_for(classes, "lazy-series", "c10.lazy.series"), format!("record {i}: select({key:?}).iter() = {}, eager column = {}", trunc(&format!("{g:?}"), 300), trunc(&format!("{want:?}"), 300)));
+                }
+            }
+            Ok(Err(e)) => fails.push(sig_for(classes, "lazy-series", "c10.lazy.series"), format!("record {i}: select({key:?}): {e}")),
+            Err(p) => fails.push(sig_for(classes, "lazy-panic", &p.sig()), format!("record {i}: select({key:?}): {}", p.describe())),
+        }
+    }
+}
+
+fn empty_record() -> VarRecord {
+    VarRecord { chrom: String::new(), pos: 1, ids: vec![], reference: "N".into(), alts: vec![], qual: None, filters: vec![], info: vec![], format: vec![], samples: vec![] }
+}
+
+fn check(case: &Case) -> Verdict {
+    let mut fails = Fails::new();
+    let hm = &case.doc.header;
+    let header = hm.to_noodles().map_err(|e| vec![Fail::new("c10.harness.model-outside-domain", e)])?;
+    let wants: Vec<VarRecord> = case.doc.records.iter().map(|r| r.normalised(Target::Bcf, hm)).collect();
+    let inputs: Vec<vcf::variant::RecordBuf> = case.doc.records.iter().map(|r| r.to_noodles()).collect();
+    let classes: Vec<Vec<&'static str>> = wants.iter().map(record_classes).collect();
+    let natural = idx_is_natural(hm);
+
+    // ---- write
+    let written = write_bcf(&header, &inputs)?;
+    let mut rejected_ok = 0usize;
+    let mut kept: Vec<usize> = Vec::new();
+    for (i, o) in written.outcomes.iter().enumerate() {
+        match o {
+            WriteOutcome::Ok => kept.push(i),
+            WriteOutcome::Err(e) => {
+                if classes[i].iter().any(|c| REJECT_OK.contains(c)) {
+                    rejected_ok += 1;
+                } else {
+                    fails.push(sig_for(&classes[i], "write-error", "c10.write-rejected"), format!("record {i}: the BCF writer rejects a valid record: {e}; record: {}", trunc(&canonical_text(&wants[i], hm), 400)));
+                }
+            }
+            WriteOutcome::Panic(p) => {
+                fails.push(sig_for(&classes[i], "write-panic", &p.sig()), format!("record {i}: the BCF writer panics: {}; record: {}", p.describe(), trunc(&canonical_text(&wants[i], hm), 400)));
+            }
+        }
+    }
+
+    // ---- inflate + raw walk
+    let stream = inflate(&written.file)?;
+    let raw = bcf_raw::parse(&stream).map_err(|e| vec![Fail::new("c10.raw.file-structure", format!("independent reader: {e}"))])?;
+    if (raw.major, raw.minor) != (2, 2) && (raw.major, raw.minor) != (2, 1) {
+        fails.push("c10.raw.version", format!("magic version {}.{}", raw.major, raw.minor));
+    }
+    if raw.records.len() != kept.len() {
+        fails.push("c10.raw.record-count", format!("{} records in the stream, {} were accepted by the writer", raw.records.len(), kept.len()));
+        return fails.finish(Pass::new(false, key_of(case)));
+    }
+
+    // ---- the stream that is read: as written, or with IDX injected into the header text
+    let inject = has_idx(hm) && !natural;
+    let hm_read: VarHeader = if has_idx(hm) { hm.clone() } else { hm.clone() };
+    let patched: Option<Vec<u8>> = if has_idx(hm) {
+        match inject_idx(&raw.text, hm) {
+            Ok(t) => Some(bcf_raw::with_header_text(&stream, &raw, &t)),
+            Err(e) => return fail1("c10.harness.inject-idx", e),
+        }
+    } else {
+        None
+    };
+    // header as read
+    let header2 = {
+        let res = match &patched {
+            Some(p) => bcf::io::Reader::from(&p[..]).read_header(),
+            None => bcf::io::Reader::new(&written.file[..]).read_header(),
+        };
+        match res {
+            Ok(h) => h,
+            Err(e) => {
+                let sig = if patched.is_some() { "c10.idx.header-with-idx-rejected" } else { "c10.header.read-error" };
+                return fail1(sig, format!("bcf read_header: {}; header text {:?}", io_chain(&e), trunc(&String::from_utf8_lossy(&raw.text), 500)));
+            }
+        }
+    };
+    let back = VarHeader::from_noodles(&header2);
+    if back != hm_read.normalised() {
+        fails.push(if has_idx(hm) { "c10.idx.header-roundtrip" } else { "c10.header.roundtrip" }, format!("header read from BCF differs from the header written (model level); text {:?}", trunc(&String::from_utf8_lossy(&raw.text), 400)));
+    }
+    // dictionary of strings / contigs as the reader built them
+    {
+        let (strings, contigs) = expected_string_indices(&hm_read);
+        for (name, idx) in &strings {
+            let got = header2.string_maps().strings().get_index_of(name);
+            if got != Some(*idx as usize) || header2.string_maps().strings().get_index(*idx as usize) != Some(name.as_str()) {
+                fails.push("c10.idx.string-map", format!("string {name:?} must have dictionary index {idx}; reader's map says index_of = {got:?}, get_index({idx}) = {:?}", header2.string_maps().strings().get_index(*idx as usize)));
+                break;
+            }
+        }
+        for (name, idx) in &contigs {
+            let got = header2.string_maps().contigs().get_index_of(name);
+            if got != Some(*idx as usize) {
+                fails.push("c10.idx.contig-map", format!("contig {name:?} must have dictionary index {idx}; reader's map says {got:?}"));
+                break;
+            }
+        }
+    }
+    let read_stream: &[u8] = patched.as_deref().unwrap_or(&stream);
+    let raw_read = if patched.is_some() { bcf_raw::parse(read_stream).map_err(|e| vec![Fail::new("c10.harness.patched-stream", e)])? } else { raw.clone() };
+
+    // ---- per record
+    let mut labels: Vec<&'static str> = Vec::new();
+    let mut nontrivial = false;
+    let mut all_clean = fails.is_empty();
+    for (slot, &i) in kept.iter().enumerate() {
+        let want = &wants[i];
+        let cls = &classes[i];
+        let before = fails.0.len();
+        // raw oracle
+        match &raw.records[slot] {
+            Ok(rr) => {
+                for (part, msg) in raw_check(want, hm, rr) {
+                    fails.push(sig_for(cls, &format!("raw-{part}"), &format!("c10.raw.{part}")), format!("record {i}: independent reader: {msg}"));
+                }
+            }
+            Err(e) => fails.push(sig_for(cls, "raw-structure", "c10.raw.record-structure"), format!("record {i}: independent reader cannot walk the record: {e}")),
+        }
+        // eager read of exactly this record
+        let bytes = &read_stream[raw_read.ranges[slot].clone()];
+        let mut rb = vcf::variant::RecordBuf::default();
+        let eager: Option<VarRecord> = match panics::catch(|| bcf::io::Reader::from(bytes).read_record_buf(&header2, &mut rb)) {
+            Ok(Ok(n)) if n > 0 => Some(VarRecord::from_record_buf(&rb)),
+            Ok(Ok(_)) => {
+                fails.push("c10.read.eof", format!("record {i}: read_record_buf returned 0"));
+                None
+            }
+            Ok(Err(e)) => {
+                fails.push(sig_for(cls, "read-error", "c10.read-error"), format!("record {i}: read_record_buf fails on what the writer accepted: {}; record: {}", io_chain(&e), trunc(&canonical_text(want, hm), 400)));
+                None
+            }
+            Err(p) => {
+                fails.push(sig_for(cls, "read-panic", &p.sig()), format!("record {i}: read_record_buf panics: {}; record: {}", p.describe(), trunc(&canonical_text(want, hm), 400)));
+                None
+            }
+        };
+        if let Some(e) = &eager {
+            if let Some((field, msg)) = want.first_diff(&e.normalised(Target::Bcf, hm)) {
+                fails.push(sig_for(cls, &format!("mismatch-{field}"), &format!("c10.roundtrip.{field}")), format!("record {i}: BCF read back differs: {msg}"));
+            }
+        }
+        // lazy read
+        let mut lazy = bcf::Record::default();
+        let lazy_ok = match panics::catch(|| bcf::io::Reader::from(bytes).read_record(&mut lazy)) {
+            Ok(Ok(n)) if n > 0 => true,
+            Ok(Ok(_)) => {
+                fails.push("c10.read.eof", format!("record {i}: read_record returned 0"));
+                false
+            }
+            Ok(Err(e)) => {
+                fails.push(sig_for(cls, "lazy-read-error", "c10.lazy.read-error"), format!("record {i}: read_record: {}", io_chain(&e)));
+                false
+            }
+            Err(p) => {
+                fails.push(sig_for(cls, "lazy-panic", &p.sig()), format!("record {i}: read_record panics: {}", p.describe()));
+                false
+            }
+        };
+        if lazy_ok {
+            let reference = eager.clone().map(|e| e.normalised(Target::Bcf, hm)).unwrap_or_else(|| want.clone());
+            match panics::catch(|| VarRecord::from_variant_record(&header2, &lazy)) {
+                Ok(Ok(lz)) => {
+                    if let Some((field, msg)) = reference.first_diff(&lz.normalised(Target::Bcf, hm)) {
+                        fails.push(sig_for(cls, &format!("lazy-mismatch-{field}"), &format!("c10.lazy-vs-eager.{field}")), format!("record {i}: lazy bcf::Record accessors differ from the eager read: {msg}"));
+                    }
+                }
+                Ok(Err(e)) => fails.push(sig_for(cls, "lazy-accessor-error", "c10.lazy.accessor-error"), format!("record {i}: a lazy accessor fails: {e}; record: {}", trunc(&canonical_text(want, hm), 300))),
+                Err(p) => fails.push(sig_for(cls, "lazy-panic", &p.sig()), format!("record {i}: a lazy accessor panics: {}; record: {}", p.describe(), trunc(&canonical_text(want, hm), 300))),
+            }
+            lazy_extra(&header2, &lazy, &reference, hm, cls, i, &mut fails);
+            // variant_end through the trait, lazy vs eager
+            if eager.is_some() {
+                use vcf::variant::Record as _;
+                let a = panics::catch(|| lazy.variant_end(&header2).map(usize::from).map_err(|e| e.to_string()));
+                let b = rb.variant_end(&header2).map(usize::from).map_err(|e| e.to_string());
+                match a {
+                    Ok(a) => {
+                        if a.as_ref().ok() != b.as_ref().ok() || a.is_ok() != b.is_ok() {
+                            fails.push(sig_for(cls, "lazy-variant-end", "c10.lazy.variant-end"), format!("record {i}: variant_end lazy = {a:?}, eager = {b:?}"));
+                        }
+                    }
+                    Err(p) => fails.push(sig_for(cls, "lazy-panic", &p.sig()), format!("record {i}: lazy variant_end panics: {}", p.describe())),
+                }
+            }
+        }
+        // VCF rendering
+        let want_rb = want.to_noodles();
+        match vcf_line(&header, &want_rb) {
+            Ok(line_in) => {
+                if eager.is_some() {
+                    match vcf_line(&header2, &rb) {
+                        Ok(l) if l == line_in => {}
+                        Ok(l) => {
+                            // rendering differences that are only the normal form (`[.]` vs `.`) are not differences
+                            let same_nf = eager.as_ref().map(|e| &e.normalised(Target::Bcf, hm) == want).unwrap_or(false);
+                            let l2 = if same_nf { vcf_line(&header2, &eager.as_ref().unwrap().normalised(Target::Bcf, hm).to_noodles()).unwrap_or_default() } else { l.clone() };
+                            if l2 != line_in {
+                                fails.push(sig_for(cls, "vcf-rendering", "c10.vcf-rendering"), format!("record {i}: VCF line of the BCF read {:?} != VCF line of the input {:?}", trunc(&String::from_utf8_lossy(&l), 300), trunc(&String::from_utf8_lossy(&line_in), 300)));
+                            }
+                        }
+                        Err(e) => fails.push(sig_for(cls, "vcf-rendering", "c10.vcf-rendering"), format!("record {i}: the record read from BCF cannot be written as VCF: {e}")),
+                    }
+                }
+                if lazy_ok && fails.0.len() == before {
+                    match vcf_line(&header2, &lazy) {
+                        Ok(l) if l == line_in => {}
+                        Ok(l) => {
+                            // lazy views keep `[.]`; re-render through the normal form
+                            let nf = VarRecord::from_variant_record(&header2, &lazy).map(|x| x.normalised(Target::Bcf, hm)).ok();
+                            let l2 = nf.and_then(|x| vcf_line(&header2, &x.to_noodles()).ok()).unwrap_or(l.clone());
+                            if l2 != line_in {
+                                fails.push(sig_for(cls, "lazy-vcf-rendering", "c10.lazy.vcf-rendering"), format!("record {i}: VCF line of the lazy BCF record {:?} != VCF line of the input {:?}", trunc(&String::from_utf8_lossy(&l), 300), trunc(&String::from_utf8_lossy(&line_in), 300)));
+                            }
+                        }
+                        Err(e) => fails.push(sig_for(cls, "lazy-vcf-rendering", "c10.lazy.vcf-rendering"), format!("record {i}: the lazy BCF record cannot be written as VCF: {e}")),
+                    }
+                }
+            }
+            Err(e) => fails.push("c10.harness.vcf-writer-rejects-input", format!("record {i}: {e}")),
+        }
+        if fails.0.len() != before {
+            all_clean = false;
+        }
+
+        // accounting
+        nontrivial |= !want.info.is_empty() || !want.samples.is_empty();
+        let mut l = |c: bool, s: &'static str| {
+            if c && !labels.contains(&s) {
+                labels.push(s);
+            }
+        };
+        let ints: Vec<i32> = want
+            .info
+            .iter()
+            .flat_map(|(_, v)| match v {
+                Some(InfoValue::Integer(n)) => vec![*n],
+                Some(InfoValue::IntArray(a)) => a.iter().flatten().copied().collect(),
+                _ => vec![],
+            })
+            .chain(want.samples.iter().flatten().flat_map(|v| match v {
+                Some(SampleValue::Integer(n)) => vec![*n],
+                Some(SampleValue::IntArray(a)) => a.iter().flatten().copied().collect(),
+                _ => vec![],
+            }))
+            .collect();
+        l(ints.iter().any(|n| [-120, 127].contains(n)), "int8-edge(-120|127)");
+        l(ints.iter().any(|n| [-121, 128].contains(n)), "int16-first(-121|128)");
+        l(ints.iter().any(|n| [-32760, 32767].contains(n)), "int16-edge(-32760|32767)");
+        l(ints.iter().any(|n| [-32761, 32768].contains(n)), "int32-first(-32761|32768)");
+        l(ints.iter().any(|n| (-128..=-121).contains(n)), "int-in-int8-sentinel-range");
+        l(ints.iter().any(|n| (-32768..=-32761).contains(n)), "int-in-int16-sentinel-range");
+        l(ints.iter().any(|n| *n == i32::MAX || *n == BCF_INT_MIN), "int32-extreme");
+        let mixed = |a: &Vec<Option<i32>>| a.iter().flatten().any(|n| (-120..=127).contains(n)) && a.iter().flatten().any(|n| !(-120..=127).contains(n));
+        l(want.info.iter().any(|(_, v)| matches!(v, Some(InfoValue::IntArray(a)) if mixed(a))) || want.samples.iter().flatten().any(|v| matches!(v, Some(SampleValue::IntArray(a)) if mixed(a))), "int-vector-mixed-widths");
+        l(want.info.iter().any(|(_, v)| matches!(v, Some(InfoValue::IntArray(a)) if a.iter().any(|x| x.is_none()))), "info-int-array-with-missing");
+        l(want.info.iter().any(|(_, v)| matches!(v, Some(InfoValue::FloatArray(a)) if a.iter().any(|x| x.is_none()))), "info-float-array-with-missing");
+        let fbits: Vec<u32> = want
+            .info
+            .iter()
+            .flat_map(|(_, v)| match v {
+                Some(InfoValue::Float(b)) => vec![*b],
+                Some(InfoValue::FloatArray(a)) => a.iter().flatten().copied().collect(),
+                _ => vec![],
+            })
+            .chain(want.samples.iter().flatten().flat_map(|v| match v {
+                Some(SampleValue::Float(b)) => vec![*b],
+                Some(SampleValue::FloatArray(a)) => a.iter().flatten().copied().collect(),
+                _ => vec![],
+            }))
+            .chain(want.qual)
+            .collect();
+        l(fbits.iter().any(|b| *b == CANONICAL_NAN), "float-canonical-nan");
+        l(fbits.iter().any(|b| is_nan_bits(*b) && *b != CANONICAL_NAN), "float-other-nan");
+        l(fbits.iter().any(|b| f32::from_bits(*b).is_infinite()), "float-inf");
+        l(fbits.iter().any(|b| f32::from_bits(*b).is_subnormal()), "float-subnormal");
+        let ragged = |ki: usize| {
+            let lens: Vec<usize> = want
+                .samples
+                .iter()
+                .filter_map(|row| match row.get(ki) {
+                    Some(Some(SampleValue::IntArray(a))) => Some(a.len()),
+                    Some(Some(SampleValue::FloatArray(a))) => Some(a.len()),
+                    Some(Some(SampleValue::StrArray(a))) => Some(a.len()),
+                    Some(Some(SampleValue::CharArray(a))) => Some(a.len()),
+                    _ => None,
+                })
+                .collect();
+            lens.iter().min() != lens.iter().max()
+        };
+        l((0..want.format.len()).any(ragged), "ragged-sample-vectors");
+        l(want.samples.iter().flatten().any(|v| v.is_none()) && !want.samples.is_empty(), "sample-value-missing");
+        l(case.doc.records[i].samples.iter().any(|r| r.len() < want.format.len()), "trailing-fields-dropped");
+        l(gts(want).any(|g| g.len() == 1) && gts(want).any(|g| g.len() >= 2), "gt-ploidy-max-and-1");
+        l(gts(want).any(|g| g.len() >= 3), "gt-ploidy>=3");
+        l(gts(want).any(|g| g.iter().any(|a| a.0.is_none())), "gt-missing-allele");
+        l(gts(want).any(|g| g.len() >= 2 && g[0].1 != implicit_first_phasing(g)), "gt-explicit-first-phasing");
+        l(gts(want).any(|g| g.iter().skip(1).any(|a| a.1)), "gt-phased");
+        l(want.filters.len() >= 2, "filters>=2");
+        l(want.filters == ["PASS"], "filter-pass");
+        l(want.filters.is_empty(), "filter-missing");
+        l(want.pos == 0, "pos-telomere");
+        l(want.info.iter().any(|(k, _)| k == "END"), "END");
+        let long = |n: usize| want.info.iter().any(|(_, v)| matches!(v, Some(InfoValue::String(s)) if s.len() >= n) || matches!(v, Some(InfoValue::IntArray(a)) if a.len() >= n) || matches!(v, Some(InfoValue::StrArray(a)) if a.iter().flatten().map(|s| s.len() + 1).sum::<usize>() >= n)) || want.reference.len() >= n;
+        l(long(15), "typed-length>=15");
+        l(long(128), "typed-length>=128");
+        l(long(32768), "typed-length>=32768");
+        l(!want.samples.is_empty(), "samples");
+        l(want.alts.len() >= 2, "alt>=2");
+        for c in cls {
+            l(true, match *c {
+                "info-missing-value" => "hazard:info-missing-value",
+                "gt-missing" => "hazard:gt-missing",
+                "gt-ragged" => "hazard:gt-ragged",
+                "gt-phased-missing" => "hazard:gt-phased-missing",
+                "format-column-all-missing" => "hazard:format-column-all-missing",
+                "string-array-element-with-comma" => "hazard:string-array-element-with-comma",
+                "dot-or-comma-value" => "hazard:dot-or-comma-value",
+                "character-non-ascii" => "hazard:character-non-ascii",
+                "string-array-percent-escape" => "hazard:string-array-percent-escape",
+                _ => "hazard:info-int-array-len1-wide",
+            });
+        }
+    }
+
+    // ---- sequential pass over the BGZF file (the ordinary way to read), when nothing else is wrong
+    if all_clean && fails.is_empty() && !inject {
+        let mut r = bcf::io::Reader::new(&written.file[..]);
+        match r.read_header() {
+            Ok(h) => {
+                let mut n = 0usize;
+                for (slot, res) in r.record_bufs(&h).enumerate() {
+                    match res {
+                        Ok(rb) => {
+                            let got = VarRecord::from_record_buf(&rb).normalised(Target::Bcf, hm);
+                            if kept.get(slot).map(|&i| &wants[i]) != Some(&got) {
+                                fails.push("c10.sequential-read", format!("record slot {slot}: sequential read differs from the isolated read"));
+                            }
+                            n += 1;
+                        }
+                        Err(e) => {
+                            fails.push("c10.sequential-read", format!("record slot {slot}: {}", io_chain(&e)));
+                            break;
+                        }
+                    }
+                }
+                if n != kept.len() && fails.is_empty() {
+                    fails.push("c10.sequential-read", format!("{n} records read sequentially, {} written", kept.len()));
+                }
+            }
+            Err(e) => fails.push("c10.header.read-error", format!("{}", io_chain(&e))),
+        }
+    }
+
+    // ---- the file exactly as written, when its header should have carried IDX (known finding)
+    if inject && case.as_written {
+        let ok = panics::catch(|| -> Result<bool, String> {
+            let mut r = bcf::io::Reader::new(&written.file[..]);
+            let h = r.read_header().map_err(|e| io_chain(&e))?;
+            for (slot, res) in r.record_bufs(&h).enumerate() {
+                let rb = res.map_err(|e| io_chain(&e))?;
+                let got = VarRecord::from_record_buf(&rb).normalised(Target::Bcf, hm);
+                if kept.get(slot).map(|&i| &wants[i]) != Some(&got) {
+                    return Ok(false);
+                }
+            }
+            Ok(true)
+        });
+        match ok {
+            Ok(Ok(true)) => {}
+            Ok(other) => fails.push("c10.idx.not-written-to-header", format!("the BCF writer encodes records with the header's IDX dictionary but writes the header text without IDX: reading the file as written gives {other:?}")),
+            Err(p) => fails.push("c10.idx.not-written-to-header", format!("reading the file as written panics: {}", p.describe())),
+        }
+    }
+
+    let mut pass = Pass::new(nontrivial, key_of(case))
+        .label(["v4.2", "v4.3", "v4.4", "v4.5", "v?"][(hm.minor as usize).saturating_sub(2).min(4)])
+        .label_if(!has_idx(hm), "idx-none")
+        .label_if(has_idx(hm) && natural, "idx-natural")
+        .label_if(inject, "idx-arbitrary(injected)")
+        .label_if(inject && expected_string_indices(hm).0.iter().any(|(_, i)| *i > 127), "idx>127")
+        .label_if(inject && expected_string_indices(hm).0.iter().any(|(_, i)| *i > 32767), "idx>32767")
+        .label_if(rejected_ok > 0, "writer-rejected(acceptable-class)")
+        .label_if(case.doc.records.is_empty(), "header-only")
+        .evals(case.doc.records.len().max(1) as u64);
+    for s in labels {
+        pass = pass.label(s);
+    }
+    fails.finish(pass)
+}
+
+// ------------------------------------------------------------------------------------------------
+// unrepresentable ⇒ Err
+// ------------------------------------------------------------------------------------------------
+
+#[derive(Clone, Copy, Debug, PartialEq, Eq, Serialize, Deserialize)]
+pub enum RejectKind {
+    InfoInt,
+    InfoIntArray,
+    FormatInt,
+    FormatIntArray,
+    InfoFloat,
+    InfoFloatArray,
+    FormatFloat,
+    FormatFloatArray,
+    Qual,
+    UndeclaredInfoKey,
+    UndeclaredFilter,
+    UndeclaredFormatKey,
+    UndeclaredContig,
+    PosBeyondInt32,
+    /// not unrepresentable (BCF has int16 genotypes) but beyond what the encoder's int8 path holds:
+    /// a GT allele index in {62, 63, 64, 100, 126, 127, 128, 129} with 130 ALT alleles — accepted ⇒
+    /// read back equal, else `Err`, never a panic
+    GtHighAlleleIndex,
+}
+
+#[derive(Clone, Debug, Serialize, Deserialize)]
+pub struct RejectCase {
+    pub doc: VarDoc,
+    pub rec_sel: u16,
+    pub kind: RejectKind,
+    /// which of the 8 reserved integers / 7 reserved float patterns
+    pub k: u8,
+    pub at: u16,
+    pub filler: Vec<i32>,
+}
+
+fn reject_strategy(tier: Tier) -> BoxedStrategy<RejectCase> {
+    use RejectKind::*;
+    let mode = Mode { samples: SamplesMode::Always, max_records: 3, ..Mode::bcf_safe() };
+    (
+        var::document(tier, &mode),
+        any::<u16>(),
+        // the float kinds are all known findings on the pinned tree: keep them occasional
+        prop_oneof![
+            16 => proptest::sample::select(vec![InfoInt, InfoIntArray, FormatInt, FormatIntArray]),
+            15 => proptest::sample::select(vec![UndeclaredInfoKey, UndeclaredFilter, UndeclaredFormatKey, UndeclaredContig, PosBeyondInt32, GtHighAlleleIndex]),
+            4 => proptest::sample::select(vec![InfoFloat, InfoFloatArray, FormatFloat, FormatFloatArray, Qual]),
+        ],
+        0u8..8,
+        any::<u16>(),
+        proptest::collection::vec(prop_oneof![-100i32..100, proptest::sample::select(vec![127, 128, -120, -121, 32767, 32768, 70000])], 3),
+    )
+        .prop_map(|(doc, rec_sel, kind, k, at, filler)| RejectCase { doc, rec_sel, kind, k, at, filler })
+        .boxed()
+}
+
+fn float_class(k: u8) -> &'static str {
+    match k {
+        1 => "missing-bits",
+        2 => "eov-bits",
+        _ => "reserved-bits",
+    }
+}
+
+fn check_reject(c: &RejectCase) -> Verdict {
+    use RejectKind::*;
+    let mut hm = c.doc.header.clone();
+    if hm.samples.is_empty() {
+        hm.samples.push("S1".into());
+    }
+    let ns = hm.samples.len();
+    let def = |id: &str, number: Num, ty: Ty| FieldDef { id: id.into(), number, ty, description: "reject test host".into(), idx: None, extra: vec![] };
+    for (id, n, t) in [("RJI", Num::Count(1), Ty::Integer), ("RJIA", Num::Unknown, Ty::Integer), ("RJF", Num::Count(1), Ty::Float), ("RJFA", Num::Unknown, Ty::Float)] {
+        if hm.info(id).is_none() {
+            hm.infos.push(def(id, n, t));
+        }
+        if hm.format(id).is_none() {
+            hm.formats.push(def(id, n, t));
+        }
+    }
+    if c.kind == GtHighAlleleIndex && hm.format("GT").is_none() {
+        hm.formats.insert(0, def("GT", Num::Count(1), Ty::String));
+    }
+    let mut records = c.doc.records.clone();
+    if records.is_empty() {
+        records.push(VarRecord { chrom: hm.contigs[0].id.clone(), ..empty_record() });
+        records[0].reference = "A".into();
+    }
+    // rows of the original header may be narrower than the new sample list
+    for r in records.iter_mut() {
+        if !r.format.is_empty() {
+            while r.samples.len() < ns {
+                r.samples.push(vec![]);
+            }
+        }
+    }
+    let ri = pick_idx(c.rec_sel, records.len());
+    let int_bad = i32::MIN + c.k as i32;
+    let fk = c.k.clamp(1, 7);
+    let float_bad = 0x7F80_0000u32 + fk as u32;
+    let at3 = pick_idx(c.at, 3);
+    let ints3: Vec<Option<i32>> = (0..3).map(|j| Some(if j == at3 { int_bad } else { c.filler[j] })).collect();
+    let floats3: Vec<Option<u32>> = (0..3).map(|j| Some(if j == at3 { float_bad } else { (c.filler[j] as f32).to_bits() })).collect();
+    let si_bad = pick_idx(c.at, ns);
+    let add_format = |r: &mut VarRecord, key: &str, bad: SampleValue, good: SampleValue| {
+        if r.format.is_empty() {
+            r.samples = vec![vec![]; ns];
+        }
+        let n = r.format.len();
+        r.format.push(key.to_string());
+        for (si, row) in r.samples.iter_mut().enumerate() {
+            while row.len() < n {
+                row.push(None);
+            }
+            row.push(Some(if si == si_bad { bad.clone() } else { good.clone() }));
+        }
+    };
+    let (class, sub): (&str, &str) = {
+        let r = &mut records[ri];
+        match c.kind {
+            InfoInt => {
+                r.info.push(("RJI".into(), Some(InfoValue::Integer(int_bad))));
+                ("info-int", "")
+            }
+            InfoIntArray => {
+                r.info.push(("RJIA".into(), Some(InfoValue::IntArray(ints3.clone()))));
+                ("info-int-array", "")
+            }
+            FormatInt => {
+                add_format(r, "RJI", SampleValue::Integer(int_bad), SampleValue::Integer(c.filler[0]));
+                ("format-int", "")
+            }
+            FormatIntArray => {
+                add_format(r, "RJIA", SampleValue::IntArray(ints3.clone()), SampleValue::IntArray(vec![Some(c.filler[0])]));
+                ("format-int-array", "")
+            }
+            InfoFloat => {
+                r.info.push(("RJF".into(), Some(InfoValue::Float(float_bad))));
+                ("info-float", float_class(fk))
+            }
+            InfoFloatArray => {
+                r.info.push(("RJFA".into(), Some(InfoValue::FloatArray(floats3.clone()))));
+                ("info-float-array", float_class(fk))
+            }
+            FormatFloat => {
+                add_format(r, "RJF", SampleValue::Float(float_bad), SampleValue::Float(1.5f32.to_bits()));
+                ("format-float", float_class(fk))
+            }
+            FormatFloatArray => {
+                add_format(r, "RJFA", SampleValue::FloatArray(floats3.clone()), SampleValue::FloatArray(vec![Some(2.5f32.to_bits())]));
+                ("format-float-array", float_class(fk))
+            }
+            Qual => {
+                r.qual = Some(float_bad);
+                ("qual", float_class(fk))
+            }
+            UndeclaredInfoKey => {
+                r.info.push(("UNDECLARED_KEY".into(), Some(InfoValue::Integer(c.filler[0]))));
+                ("undeclared-info-key", "")
+            }
+            UndeclaredFilter => {
+                r.filters = vec!["undeclared_filter".into()];
+                ("undeclared-filter", "")
+            }
+            UndeclaredFormatKey => {
+                add_format(r, "UNDECLARED_FMT", SampleValue::Integer(c.filler[0]), SampleValue::Integer(c.filler[1]));
+                ("undeclared-format-key", "")
+            }
+            UndeclaredContig => {
+                r.chrom = "undeclared_contig".into();
+                ("undeclared-contig", "")
+            }
+            PosBeyondInt32 => {
+                r.pos = 1u32 << 31;
+                r.info.retain(|(k, _)| k != "END");
+                ("pos-beyond-int32", "")
+            }
+            GtHighAlleleIndex => {
+                let idx = [62u32, 63, 64, 100, 126, 127, 128, 129][(c.k % 8) as usize];
+                let mut alts = Vec::new();
+                'outer: for len in 1..=4usize {
+                    for n in 0..4usize.pow(len as u32) {
+                        let a: String = (0..len).map(|j| ['A', 'C', 'G', 'T'][(n / 4usize.pow(j as u32)) % 4]).collect();
+                        if a != "A" {
+                            alts.push(a);
+                        }
+                        if alts.len() == 130 {
+                            break 'outer;
+                        }
+                    }
+                }
+                *r = VarRecord { chrom: r.chrom.clone(), pos: r.pos.max(1), reference: "A".into(), alts, format: vec!["GT".into()], ..empty_record() };
+                r.samples = (0..ns).map(|si| vec![Some(SampleValue::Genotype(if si == si_bad { vec![(Some(0), hm.minor < 4), (Some(idx), c.at % 2 == 0)] } else { vec![(Some(0), hm.minor < 4 || c.at % 3 == 0), (Some(1), true)] }))]).collect();
+                ("gt-high-allele-index", "")
+            }
+        }
+    };
+    // one signature per site and per way of not rejecting: the writer panics, or it accepts the
+    // record (what happens afterwards — a different value, an unreadable record, a reader panic —
+    // is the consequence and goes into the message)
+    let sig = |what: &str| {
+        let what = if what == "panic" { "writer-panic" } else { "not-rejected" };
+        format!("c10.reject.{class}.{what}")
+    };
+    let _ = sub;
+    let header = hm.to_noodles().map_err(|e| vec![Fail::new("c10.harness.model-outside-domain", e)])?;
+    let inputs: Vec<vcf::variant::RecordBuf> = records.iter().map(|r| r.to_noodles()).collect();
+    let written = write_bcf(&header, &inputs)?;
+    let describe = || trunc(&canonical_text(&records[ri], &hm), 300);
+    let mut verdict_label = "rejected-with-err";
+    // the other records must be accepted
+    for (i, o) in written.outcomes.iter().enumerate() {
+        if i != ri {
+            match o {
+                WriteOutcome::Ok => {}
+                WriteOutcome::Err(e) => return fail1("c10.reject.harness.host-record-rejected", format!("record {i} (not the injected one) was not accepted: {e}; {}", trunc(&canonical_text(&records[i], &hm), 400))),
+                WriteOutcome::Panic(p) => return fail1("c10.reject.harness.host-record-rejected", format!("record {i} (not the injected one) panics: {}; {}", p.describe(), trunc(&canonical_text(&records[i], &hm), 400))),
+            }
+        }
+    }
+    match &written.outcomes[ri] {
+        WriteOutcome::Err(_) => {}
+        WriteOutcome::Panic(p) => return fail1(sig("panic"), format!("the writer panics instead of returning Err: {}; record: {}", p.describe(), describe())),
+        WriteOutcome::Ok => {
+            verdict_label = "accepted";
+            // accepted: then it must read back as the same record
+            let stream = inflate(&written.file)?;
+            let raw = bcf_raw::parse(&stream).map_err(|e| vec![Fail::new(sig("accepted-then-malformed"), e)])?;
+            let header2 = bcf::io::Reader::new(&written.file[..]).read_header().map_err(|e| vec![Fail::new("c10.header.read-error", io_chain(&e))])?;
+            let slot = ri;
+            let Some(range) = raw.ranges.get(slot) else { return fail1(sig("accepted-then-missing"), "the accepted record is not in the stream".to_string()) };
+            let bytes = &stream[range.clone()];
+            let mut rb = vcf::variant::RecordBuf::default();
+            let want = records[ri].normalised(Target::Bcf, &hm);
+            match panics::catch(|| bcf::io::Reader::from(bytes).read_record_buf(&header2, &mut rb)) {
+                Ok(Ok(_)) => {
+                    let got = VarRecord::from_record_buf(&rb).normalised(Target::Bcf, &hm);
+                    if let Some((_, msg)) = want.first_diff(&got) {
+                        return fail1(sig("silently-different"), format!("the writer accepts a value BCF cannot represent ({sub}) and a different value is read back: {msg}"));
+                    }
+                }
+                Ok(Err(e)) => return fail1(sig("accepted-then-unreadable"), format!("the writer accepts the record, the reader then fails: {}; record: {}", io_chain(&e), describe())),
+                Err(p) => return fail1(sig("accepted-then-read-panic"), format!("the writer accepts the record, the reader then panics: {}; record: {}", p.describe(), describe())),
+            }
+            // lazy view of the same bytes must not panic either
+            let mut lazy = bcf::Record::default();
+            if let Ok(Ok(_)) = panics::catch(|| bcf::io::Reader::from(bytes).read_record(&mut lazy)) {
+                if let Err(p) = panics::catch(|| VarRecord::from_variant_record(&header2, &lazy)) {
+                    return fail1(sig("accepted-then-lazy-panic"), format!("lazy accessors panic: {}", p.describe()));
+                }
+            }
+        }
+    }
+    Ok(Pass::new(true, key_of(c))
+        .label(match c.kind {
+            InfoInt => "info-int",
+            InfoIntArray => "info-int-array",
+            FormatInt => "format-int",
+            FormatIntArray => "format-int-array",
+            InfoFloat => "info-float",
+            InfoFloatArray => "info-float-array",
+            FormatFloat => "format-float",
+            FormatFloatArray => "format-float-array",
+            Qual => "qual",
+            UndeclaredInfoKey => "undeclared-info-key",
+            UndeclaredFilter => "undeclared-filter",
+            UndeclaredFormatKey => "undeclared-format-key",
+            UndeclaredContig => "undeclared-contig",
+            PosBeyondInt32 => "pos-beyond-int32",
+            GtHighAlleleIndex => "gt-high-allele-index",
+        })
+        .label(verdict_label))
+}
+
+/// The contract of `Mode::bcf_safe()` towards the other properties that reuse the generator (see
+/// the same sub-check in C09).
+fn safe_strategy(tier: Tier) -> BoxedStrategy<Case> {
+    var::document(tier, &Mode::bcf_safe()).prop_map(|doc| Case { doc, as_written: true }).boxed()
+}
+
+fn check_safe(c: &Case) -> Verdict {
+    check(c).map_err(|fails| fails.into_iter().map(|f| Fail::new(format!("c10.safe-domain:{}", f.sig), f.msg)).collect())
+}
 
 pub fn property() -> Property {
-    Property { id: "C10", level: "exploration", rule: "", assumptions: vec![], subs: vec![], max_parallel: 16 }
+    Property {
+        id: "C10",
+        level: "exploration",
+        rule: "VCF headers with arbitrary (non-contiguous, non-monotone) IDX assignments or none, and records consistent with them over the BCF domain: integers in [-2^31+8, 2^31-1] dense at the int8/int16 boundaries, scalars and mixed-width vectors, float bit patterns except 0x7F800001..7, missing entries, ragged per-sample vectors, GT ploidy 1..4 with missing alleles and phasing, Number=A/R/G/./n, typed lengths across 15/128/32768 (gen::var, Mode::bcf_full)",
+        assumptions: vec![
+            "the harness's BCF2 reader (oracle/bcf_raw.rs, from the specification), BGZF walker (miniz_oxide) and span arithmetic are correct".into(),
+            "normal forms: `[.]` ≡ `.`; dropped trailing sample fields ≡ missing; first-allele phasing implicit before VCF 4.4".into(),
+            "IDX fields are injected into the header text by the harness because the repository's header writer cannot emit them".into(),
+            "strings are compared as noodles stores them (raw, not percent-encoded); characters with a meaning in BCF string vectors (`,`, lone `.`, NUL) are outside the asserted domain except as labelled known-defect classes".into(),
+        ],
+        subs: vec![
+            sub(
+                "roundtrip",
+                "one case = header + 0..10 records, each record one evaluation; non-trivial = some record has an INFO field or sample columns; distinct by hash of the case",
+                strategy,
+                check,
+                12_000,
+                400_000,
+            )
+            .boxed(),
+            sub("reject", "one unrepresentable element injected into a valid document; every case non-trivial; distinct by hash of the case", reject_strategy, check_reject, 8_000, 250_000).boxed(),
+            sub("safe_domain", "documents of Mode::bcf_safe() (what other properties reuse): must pass all round-trip oracles with no known finding", safe_strategy, check_safe, 3_000, 60_000).boxed(),
+        ],
+        max_parallel: 16,
+    }
 }
